@@ -20,7 +20,7 @@ RULE = ("cases = (generated schema, composite type, valid value, byte order, fau
         "inside a field; distinct = distinct hash of (schema text, type, byte order, faulted bytes)")
 ASSUME = ["g++ 12 x86-64, ASan+UBSan (-fno-sanitize=enum: generated code stores wire integers in enum variables by "
           "design and validates them in a switch)", "allocation cap 64 MiB per request (ASAN max_allocation_size_mb)",
-          "120 s timeout per driver batch"]
+          "120 s timeout per driver batch", "input buffers are 8-aligned heap blocks of exactly the input's size"]
 
 
 class Campaign(cppcamp.FullCampaign):
